@@ -159,7 +159,7 @@ class NDArr:
 
     def pyvc_iter(self, it):
         s = self.seq
-        s2 = Seq(s.len, s.at, s.sort)
+        s2 = s.clone()           # keeps the enumeration hints (np.flatnonzero positions)
         s2.keep_symbolic = not isinstance(conc(s.len), int) or conc(s.len) > 6
         return s2
 
@@ -739,9 +739,8 @@ def elt_lt(kind, x, y):
 def _m_argsort(it, args, kwargs):
     """argsort(kind="stable"): a permutation that orders the elements (NaN/NaT last), stable."""
     from .speclib import Perm
-    a = args[0]
-    if kwargs.get("kind") != "stable":
-        raise Unsupported("argsort without kind='stable'")
+    a = as_arr(it, args[0])
+    stable = kwargs.get("kind") in ("stable", "mergesort")      # NumPy's default (quicksort / introsort) is NOT stable
     s = a.seq
     ctx = it.ctx
     pm = Perm(ctx, s.len, "argsort")
@@ -754,8 +753,13 @@ def _m_argsort(it, args, kwargs):
     else:
         lt = lambda p, q: elt_lt(a.kind, s.at(p), s.at(q))
     px, py = pm.perm(x), pm.perm(y)
-    ctx.assumptions.append(z3.ForAll([x, y], z3.Implies(rng, z3.And(z3.Not(lt(py, px)), z3.Implies(z3.Not(lt(px, py)), px < py))),
-                                     patterns=[z3.MultiPattern(pm.perm(x), pm.perm(y))]))
+    if stable:
+        ctx.assumptions.append(z3.ForAll([x, y], z3.Implies(rng, z3.And(z3.Not(lt(py, px)), z3.Implies(z3.Not(lt(px, py)), px < py))),
+                                         patterns=[z3.MultiPattern(pm.perm(x), pm.perm(y))]))
+    else:
+        # ordered, but nothing is known about the relative order of equal elements
+        ctx.assumptions.append(z3.ForAll([x, y], z3.Implies(rng, z3.Not(lt(py, px))), patterns=[z3.MultiPattern(pm.perm(x), pm.perm(y))]))
+        ctx.used_models.add("argsort without kind='stable': an ordering permutation, ties in unspecified order")
     srt = getattr(s, "sorted_seq", None)
     if srt is not None:
         # a rearrangement of a strictly increasing sequence sorts back to that sequence (consequence of the above)
@@ -972,6 +976,43 @@ def _np_array(it, args, kwargs):
     return a
 
 
+def _np_full_like(it, args, kwargs):
+    """np.full_like(a, fill, dtype=None): a new array of a's length, every element the fill value converted to the
+    result dtype (NaN becomes NaT in a datetime / timedelta array; otherwise the value itself)."""
+    a = as_arr(it, args[0])
+    fill = args[1] if len(args) > 1 else kwargs.get("fill_value")
+    dtype = args[2] if len(args) > 2 else kwargs.get("dtype")
+    kind = a.kind if dtype is None else astype_kind(it, dtype)
+    if kind is None:
+        raise Unsupported(f"full_like dtype {dtype!r}")
+    fv = M.to_v(it, fill)
+    temporal = kind_is(kind, "datetime", "timedelta")
+    val = z3.If(z3.And(temporal, is_nan(fv)), NAT, fv) if not isinstance(temporal, bool) else (z3.If(is_nan(fv), NAT, fv) if temporal else fv)
+    return NDArr(it.ctx, Seq(a.seq.len, lambda j: val, V), kind, "fresh", None)
+
+
+class Vectorized:
+    """np.vectorize(f): applies f to every element; the result is a new array of the same length (dtype from the values:
+    unknown here)."""
+    def __init__(self, f):
+        self.f = f
+
+    def pyvc_call(self, it, args, kwargs):
+        a = as_arr(it, args[0])
+        s = a.seq
+        f = self.f
+        from .speclib import eval_for_arbitrary
+        if hasattr(f, "apply"):
+            at = lambda j: M.to_v(it, f.apply(it, coerce(it, s.at(j), s.sort, V)))
+        else:
+            proto = eval_for_arbitrary(it, f, lambda j: coerce(it, s.at(j), s.sort, V), s.len, "vec")
+            at = lambda j: M.to_v(it, proto(j))
+        k = it.ctx.fresh("vectorized_kind", INT)
+        it.ctx.assume(z3.And(k >= 0, k < len(KINDS)))
+        it.ctx.used_models.add("np.vectorize(f)(a): f applied to every element of a, new array")
+        return NDArr(it.ctx, Seq(s.len, at, V), k, "fresh", None)
+
+
 def _np_lexsort(it, args, kwargs):
     from .speclib import np_lexsort
     return np_lexsort(it, args, kwargs)
@@ -1083,7 +1124,9 @@ def make_np(it):
         "sort": ModelFn("np.sort [fresh]", _np_sort), "where": ModelFn("np.where", _np_where),
         "fromiter": ModelFn("np.fromiter", _np_fromiter), "issubdtype": ModelFn("np.issubdtype", _np_issubdtype),
         "isnan": ModelFn("np.isnan", _np_isnan), "isnat": ModelFn("np.isnat", _np_isnat),
-        "array": ModelFn("np.array [fresh]", _np_array), "lexsort": ModelFn("np.lexsort", _np_lexsort),
+        "argsort": ModelFn("np.argsort", _m_argsort),
+        "array": ModelFn("np.array [fresh]", _np_array), "full_like": ModelFn("np.full_like [fresh]", _np_full_like),
+        "vectorize": ModelFn("np.vectorize", lambda it_, a, k: Vectorized(a[0])), "lexsort": ModelFn("np.lexsort", _np_lexsort),
         "split": ModelFn("np.split [views]", _np_split), "unique": ModelFn("np.unique(return_index)", _np_unique), "dtype": ModelFn("np.dtype", _np_dtype),
         "isscalar": ModelFn("np.isscalar", lambda it_, a, k: not isinstance(a[0], (NDArr, MList, PyList, Seq, list, tuple, dict, GenValue))
                             and not hasattr(a[0], "pyvc_segments")),
